@@ -111,6 +111,142 @@ def proxy_events(c):
 
 
 # --------------------------------------------------------------------------------------
+# E3b: the session-side handlers (real NodeSession on a real state, no network)
+
+RB = 1000000
+
+
+def gen_sess_case(rng, case_id):
+    L = rng.choice([8, 15, 30, 60])
+    ops = []
+    nprobe = 0
+    alive = set()
+    member = set()      # (i, g) local memberships
+    port = 100
+    used_ports = []
+    qs = [0, 1, 2]
+    for _ in range(L):
+        r = rng.random()
+        if r < 0.08 or nprobe == 0:
+            ops.append(("spawn", nprobe))
+            alive.add(nprobe)
+            nprobe += 1
+        elif r < 0.16:
+            i = rng.choice(sorted(alive)) if alive and rng.random() < 0.9 else rng.randrange(nprobe)
+            g = rng.randrange(3)
+            ops.append(("join", i, g))
+            if i in alive:
+                member.add((i, g))
+        elif r < 0.21:
+            ms = sorted(m for m in member if m[0] in alive)
+            if ms:
+                i, g = rng.choice(ms)
+                member.discard((i, g))
+                ops.append(("leave", i, g))
+        elif r < 0.25:
+            if alive:
+                i = rng.choice(sorted(alive))
+                alive.discard(i)
+                member = {m for m in member if m[0] != i}
+                ops.append(("exit", i))
+        elif r < 0.36:
+            i = rng.choice(list(range(nprobe)) + [99])
+            ops.append(("rcast", i, rng.choice([1, 2, 3, 4]), rnd_bytes(rng)))
+        elif r < 0.48:
+            i = rng.choice(list(range(nprobe)) + [99])
+            ops.append(("rcall", i, rng.randrange(1, 50), rng.choice([1, 2, 3, 4, 6]), rnd_bytes(rng)))
+        elif r < 0.56:
+            ops.append(("fspawn", rng.choice(qs)))
+        elif r < 0.60:
+            ops.append(("fterm", rng.choice(qs)))
+        elif r < 0.68:
+            ops.append(("fjoin", rng.randrange(3), rng.choice(qs)))
+        elif r < 0.73:
+            ops.append(("fleave", rng.randrange(3), rng.choice(qs)))
+        elif r < 0.81:
+            ops.append(("send", rng.choice(qs), rng.choice([1, 2]), rnd_bytes(rng)))
+        elif r < 0.90:
+            port += 1
+            used_ports.append(port)
+            ops.append(("scall", rng.choice(qs), rng.choice([3, 4]), rnd_bytes(rng), port))
+        elif r < 0.97:
+            ops.append(("freply", rng.choice(qs), rng.choice([1, 1, 2, 2, 3, 4, 9]), rnd_bytes(rng)))
+        else:
+            if used_ports:
+                ops.append(("drop", rng.choice(used_ports)))
+    return {"id": case_id, "ops": ops, "nprobe": nprobe}
+
+
+def sess_line(c):
+    def b(x):
+        return ",".join(map(str, x)) if x else "-"
+    parts = []
+    for op in c["ops"]:
+        k = op[0]
+        if k in ("rcast", "send"):
+            parts.append(f"{k} {op[1]} {op[2]} {b(op[3])}")
+        elif k == "rcall":
+            parts.append(f"rcall {op[1]} {op[2]} {op[3]} {b(op[4])}")
+        elif k == "scall":
+            parts.append(f"scall {op[1]} {op[2]} {b(op[3])} {op[4]}")
+        elif k == "freply":
+            parts.append(f"freply {op[1]} {op[2]} {b(op[3])}")
+        else:
+            parts.append(" ".join(map(str, op)))
+    return f"sess {c['id']} 0,1,2 | " + " ; ".join(parts)
+
+
+def sess_model(c):
+    def bl(x):
+        return "[" + "; ".join(map(str, x)) + "]"
+    ops = []
+    for op in c["ops"]:
+        k = op[0]
+        if k == "spawn":
+            ops.append(f"USpawn {op[1]}")
+        elif k == "join":
+            ops.append(f"UJoin {op[1]} {op[2]}")
+        elif k == "leave":
+            ops.append(f"ULeave {op[1]} {op[2]}")
+        elif k == "exit":
+            ops.append(f"UExit {op[1]}")
+        elif k == "rcast":
+            ops.append(f"URecvF (FMsg {op[1]} 0 (mkMsg false {op[2]} {bl(op[3])}) 0)")
+        elif k == "rcall":
+            ops.append(f"URecvF (FMsg {op[1]} {op[2]} (mkMsg true {op[3]} {bl(op[4])}) 0)")
+        elif k == "fspawn":
+            ops.append(f"URecvB (FSpawn {RB + op[1]})")
+        elif k == "fterm":
+            ops.append(f"URecvB (FTerm {RB + op[1]})")
+        elif k == "fjoin":
+            ops.append(f"URecvB (FJoin {op[1]} {RB + op[2]})")
+        elif k == "fleave":
+            ops.append(f"URecvB (FLeave {op[1]} {RB + op[2]})")
+        elif k == "freply":
+            ops.append(f"URecvB (FReply {RB + op[1]} {op[2]} {bl(op[3])} 0)")
+        elif k == "send":
+            ops.append(f"USend {RB + op[1]} (mkMsg false {op[2]} {bl(op[3])}) 0")
+        elif k == "scall":
+            ops.append(f"USend {RB + op[1]} (mkMsg true {op[2]} {bl(op[3])}) {op[4]}")
+        elif k == "drop":
+            ops.append(f"UAbandon {op[1]}")
+    xs = bl([RB, RB + 1, RB + 2])
+    ys = bl(list(range(c["nprobe"])) + [99])
+    return f"urun 4 {xs} {ys} (init 0 0) [" + "; ".join(ops) + "]"
+
+
+def canon_u(t):
+    """sort the per-operation wire frames (HashSet iteration order on the implementation side)"""
+    out = []
+    for u in t:
+        if isinstance(u, tuple) and u[0] == "mkU":
+            out.append(("mkU", u[1], sorted(u[2], key=show_term), u[3], u[4], u[5]))
+        else:
+            out.append(u)
+    return out
+
+
+# --------------------------------------------------------------------------------------
 # E4: two-node scenarios
 
 class Scen:
@@ -400,6 +536,33 @@ def run(chk):
         if i == 1:
             chk.coverage["samples"].append(json.loads(desc))
 
+    # ---------------- E3b: the session-side handlers ----------------
+    n_ss = (150 if quick else 2500) * factor
+    scases = [gen_sess_case(rng, i + 1) for i in range(n_ss)]
+    try:
+        impl = run_harness(build, "eng_remote", [sess_line(c) for c in scases], shards=4)
+    except RuntimeError as e:
+        return infrastructure_failure(chk.prop, "session engine did not complete: " + str(e)[-1500:])
+    model = coq_eval("C20s", IMPORTS, [sess_model(c) for c in scases])
+    for i, c in enumerate(scases):
+        mv = canon_u(parse_term(model[i]))
+        iv = canon_u(parse_term(impl[i]))
+        chk.coverage["evaluations"] += 1
+        for op in c["ops"]:
+            chk.count("sess.op." + op[0])
+        distinct.add(sess_line(c).split("|", 1)[1])
+        if mv != iv:
+            chk.coverage["disagreements_checked"] += 1
+            first = next((j for j, (a, b) in enumerate(zip(mv, iv)) if a != b), None)
+            desc = json.dumps({"kind": "sess", "harness_line": sess_line(c), "first_difference_at_op": first,
+                               "op": list(c["ops"][first]) if first is not None and first < len(c["ops"]) else None,
+                               "impl": show_term(iv[first]) if first is not None else show_term(iv),
+                               "model": show_term(mv[first]) if first is not None else show_term(mv)}, indent=1)
+            chk.violation("model/implementation disagree (NodeSession node/control/lifecycle handlers)",
+                          f"correspondence E3b:session differs at op #{first}\n" + desc, failing_input=False)
+        if i == 2:
+            chk.coverage["samples"].append({"harness_line": sess_line(c), "impl": impl[i][:1200]})
+
     # ---------------- E4: two real nodes ----------------
     ncases = []
     n_net = (200 if quick else 3000) * factor
@@ -454,11 +617,13 @@ def run(chk):
         if len(chk.coverage["samples"]) < 3 and c["kind"] in ("strict", "cut") and len(o["recv"]) > 4:
             chk.coverage["samples"].append({"harness_line": c["line"], "impl": out[:1500], "oracle": v})
     chk.count("net.closed_at_end", n_closed)
-    chk.coverage["traces_validated_against_impl"] = n_px + len(ncases)
+    chk.coverage["traces_validated_against_impl"] = n_px + n_ss + len(ncases)
     chk.coverage["distinct_nontrivial"] = len(distinct)
     chk.coverage["rule"] = ("E3: seeded histories of casts/calls/replies/abandoned callers/session failure through the real "
                             "proxy handler (three styles: balanced, pile-up beyond the cleanup budget of 16, churn), compared "
-                            "step by step with the model; E4: seeded two-node scenarios (fault-free with full-delivery check, "
+                            "step by step with the model; E3b: seeded histories of frames (Cast/Call/Reply/Spawn/Terminate/PgJoin/PgLeave), local actor "
+                            "lifecycle events and sends through proxies against the real NodeSession handlers on a real state, compared operation "
+                            "by operation with the transition system's component functions; E4: seeded two-node scenarios (fault-free with full-delivery check, "
                             "actors exiting, connection cut at byte offsets / frame boundaries / immediately) plus a sweep of one "
                             "fixed scenario over every frame boundary 0..8 and a window of byte offsets in both directions. "
                             "non-trivial = at least 3 proxy ops / any two-node scenario; distinct = distinct scenario texts")
